@@ -88,6 +88,12 @@ func run(propID, tier, repo, verif string, noEvidence, dump bool, cfgFlag string
 				return err
 			}
 			ctx = kit.NewCtx(p, propID)
+			if d := os.Getenv("RAINLINT_ATOMS"); d != "" {
+				pk, fnn, _ := strings.Cut(d, ":")
+				for _, a := range kit.DumpAtoms(p.Func(pk, fnn)) {
+					fmt.Println(a)
+				}
+			}
 			pd.Run(ctx)
 			if i == 0 {
 				res.Packages = len(p.All)
